@@ -281,6 +281,33 @@ Definition requested (ops : list op) : list path :=
 Definition added (ops : list op) : list path :=
   flat_map (fun o => match o with AddFile p _ _ => [p] | _ => [] end) ops.
 
+(* ---- one life: FileTracker(tmp, drawn name n0); the calls `mid`; del ---- *)
+Definition alive (f0 : fs) (tmp : option path) (n0 : Z) (mid : list op) : state :=
+  fst (run (start f0) (Create tmp n0 :: mid)).
+Definition life (f0 : fs) (tmp : option path) (n0 : Z) (mid : list op) : state :=
+  fst (run (start f0) (Create tmp n0 :: mid ++ [Del])).
+Definition add_content (f : fs) (p : path) : Z :=
+  match look f p with File c => c | _ => empty_content end.
+(* what lies in the tmp_dir parent d beside the tracker's own directory T *)
+Definition stale (d T q : path) : bool := under d q && negb (is_prefix T q).
+(* decidable forms of hypotheses (for the examples) *)
+Definition wfb (f : fs) : bool :=
+  forallb (fun kv => match fst kv with
+                     | [] => true
+                     | _ :: _ => n_is_dir (look f (parent (fst kv)))
+                     end) f.
+Definition node_eqb (a b : node) : bool :=
+  match a, b with
+  | Absent, Absent => true
+  | Dir, Dir => true
+  | File x, File y => x =? y
+  | _, _ => false
+  end.
+Definition agree_b (d T : path) (f f' : fs) : bool :=
+  forallb (fun kv => stale d T (fst kv) || node_eqb (look f (fst kv)) (look f' (fst kv))) (f ++ f').
+Definition ops_ns_b (d T : path) (mid : list op) : bool :=
+  forallb (fun o => forallb (fun p => negb (stale d T p)) (op_paths o)) mid.
+
 (* ---- wire ---- *)
 Definition sx_opath (x : sx) : option (option path) :=
   match x with
@@ -397,12 +424,3 @@ Definition run_mkstemp_clean (x : sx) : sx :=
   | _ => sx_bad
   end.
 
-(* ---- one life: FileTracker(tmp, drawn name n0); the calls `mid`; del ---- *)
-Definition alive (f0 : fs) (tmp : option path) (n0 : Z) (mid : list op) : state :=
-  fst (run (start f0) (Create tmp n0 :: mid)).
-Definition life (f0 : fs) (tmp : option path) (n0 : Z) (mid : list op) : state :=
-  fst (run (start f0) (Create tmp n0 :: mid ++ [Del])).
-Definition add_content (f : fs) (p : path) : Z :=
-  match look f p with File c => c | _ => empty_content end.
-(* what lies in the tmp_dir parent d beside the tracker's own directory T *)
-Definition stale (d T q : path) : bool := under d q && negb (is_prefix T q).
